@@ -83,8 +83,12 @@ func recsJSON(rs []rec, mp Mapping) [][]interface{} {
 	out := make([][]interface{}, 0, len(rs))
 	for _, r := range rs {
 		row := []interface{}{r.A, r.T}
-		for _, v := range r.V {
-			row = append(row, mp.modelV(v))
+		for i, v := range r.V {
+			if i == 2 && len(r.V) == 3 {
+				row = append(row, mp.modelDelta(v)) // diff's dest-src column is a difference, not a value
+			} else {
+				row = append(row, mp.modelV(v))
+			}
 		}
 		out = append(out, row)
 	}
@@ -111,7 +115,7 @@ func populate(path string, cfg MCfg, mp Mapping, now int64, rnd *rand.Rand, unit
 		pts := make([]wt.Point, n)
 		for j := range pts {
 			t := now - rnd.Int63n(ret)
-			v := float64((rnd.Int63n(21)-10)*unit) * mp.Scale
+			v := mp.V([]int64{(rnd.Int63n(21) - 10) * unit})
 			if rnd.Intn(12) == 0 {
 				v = math.NaN()
 			}
@@ -159,6 +163,11 @@ func (d *cliDriver) oneCase(seed int64, id int) {
 	k := len(lay)
 	maxRet := lay[k-1].Step * lay[k-1].N
 	mp := Mapping{B: drvBases[rnd.Intn(len(drvBases))], Scale: drvScales[rnd.Intn(len(drvScales))]}
+	if (d.prop == "C08" || d.prop == "C09" || d.prop == "C18") && (method == "last" || method == "max" || method == "min" || method == "first") && rnd.Intn(3) == 0 {
+		// values that differ in the last bit only / need 17 significant digits (no value arithmetic happens with these methods)
+		mp.Off, mp.Scale = 1, 1.0/(1<<52)
+		other.Method = method
+	}
 	l := lcmAll(lay) * lcmAll(other.Layout)
 	mp.B -= mp.B % l
 	omax := other.Layout[len(other.Layout)-1].Step * other.Layout[len(other.Layout)-1].N
@@ -213,7 +222,8 @@ func (d *cliDriver) oneCase(seed int64, id int) {
 			createFile(item.srcs[0], cfg)
 			createFile(item.dst, cfg)
 			t := now - rnd.Int63n(lay[0].Step*lay[0].N)
-			x := float64((1+rnd.Int63n(9))*unit) * mp.Scale
+			xm := (1 + rnd.Int63n(9)) * unit
+			x := mp.V([]int64{xm})
 			for fi, p := range []string{item.srcs[0], item.dst} {
 				db, err := wt.Open(p)
 				if err != nil {
@@ -221,10 +231,10 @@ func (d *cliDriver) oneCase(seed int64, id int) {
 				}
 				v := x
 				if fi == 1 {
-					v = 2 * x
+					v = mp.V([]int64{2 * xm})
 				}
 				db.UpdatePointForArchive(0, wt.Timestamp(mp.B+t), wt.Value(v), wt.Timestamp(mp.B+now))
-				db.UpdatePointForArchive(k-1, wt.Timestamp(mp.B+t), wt.Value(3*x), wt.Timestamp(mp.B+now))
+				db.UpdatePointForArchive(k-1, wt.Timestamp(mp.B+t), wt.Value(mp.V([]int64{3 * xm})), wt.Timestamp(mp.B+now))
 				db.Sync()
 				db.Close()
 			}
